@@ -534,6 +534,15 @@ func (k Keeper) TriggerEsm(ctx sdk.Context, auctionData types.Auction, liquidati
 
 }
 
+// limitBidPaid returns the amount of debt token an executed automatic bid was recorded with.
+func (k Keeper) limitBidPaid(ctx sdk.Context, biddingID uint64) (sdk.Int, error) {
+	userBid, err := k.GetUserBid(ctx, biddingID)
+	if err != nil {
+		return sdk.Int{}, err
+	}
+	return userBid.DebtTokenAmount.Amount, nil
+}
+
 func (k Keeper) LimitOrderBid(ctx sdk.Context) error {
 	// Get Auctions One by One and for that particular auction check the current discount
 	// if we find any active limit bid for that premium then we will execute it and update both
@@ -565,21 +574,27 @@ func (k Keeper) LimitOrderBid(ctx sdk.Context) error {
 						if err != nil {
 							return err
 						}
-						if individualBids.DebtToken.Amount.Equal(auction.DebtToken.Amount) {
+						// the deposit is charged what the bid paid: the auction's remaining debt, or less when the
+						// collateral left was worth less and the app reserve covered the difference
+						paid, err := k.limitBidPaid(ctx, biddingId)
+						if err != nil {
+							return err
+						}
+						if individualBids.DebtToken.Amount.Equal(paid) {
 							k.DeleteUserLimitBidData(ctx, auction.DebtAssetId, auction.CollateralAssetId, premiumPerc.TruncateInt(), individualBids.BidderAddress)
 
 							k.UpdateUserLimitBidDataForAddress(ctx, individualBids, false)
 							// the used-up deposit leaves the protocol total as well
 							protocolData, _ := k.GetLimitBidProtocolDataByAssetID(ctx, auction.DebtAssetId, auction.CollateralAssetId)
-							protocolData.BidValue = protocolData.BidValue.Sub(auction.DebtToken.Amount)
+							protocolData.BidValue = protocolData.BidValue.Sub(paid)
 							return k.SetLimitBidProtocolData(ctx, protocolData)
 						}
-						individualBids.DebtToken.Amount = individualBids.DebtToken.Amount.Sub(auction.DebtToken.Amount)
+						individualBids.DebtToken.Amount = individualBids.DebtToken.Amount.Sub(paid)
 						individualBids.BiddingId = append(individualBids.BiddingId, biddingId)
 						k.SetUserLimitBidData(ctx, individualBids, auction.DebtAssetId, auction.CollateralAssetId, premiumPerc.TruncateInt())
-						// subtract auction.DebtToken.Amount from protocol data
+						// subtract what was paid from protocol data
 						protocolData, _ := k.GetLimitBidProtocolDataByAssetID(ctx, auction.DebtAssetId, auction.CollateralAssetId)
-						protocolData.BidValue = protocolData.BidValue.Sub(auction.DebtToken.Amount)
+						protocolData.BidValue = protocolData.BidValue.Sub(paid)
 						err = k.SetLimitBidProtocolData(ctx, protocolData)
 						if err != nil {
 							return err
@@ -589,13 +604,19 @@ func (k Keeper) LimitOrderBid(ctx sdk.Context) error {
 						if err != nil {
 							return err
 						}
-						debtAmount := individualBids.DebtToken.Amount
-						individualBids.DebtToken.Amount = sdk.ZeroInt()
+						// the whole deposit, unless the bid was lowered to what the collateral left is worth
+						debtAmount, err := k.limitBidPaid(ctx, biddingId)
+						if err != nil {
+							return err
+						}
+						individualBids.DebtToken.Amount = individualBids.DebtToken.Amount.Sub(debtAmount)
 						individualBids.BiddingId = append(individualBids.BiddingId, biddingId)
 						k.SetUserLimitBidData(ctx, individualBids, auction.DebtAssetId, auction.CollateralAssetId, premiumPerc.TruncateInt())
-						// delete limit order bid
-						k.UpdateUserLimitBidDataForAddress(ctx, individualBids, false)
-						k.DeleteUserLimitBidData(ctx, auction.DebtAssetId, auction.CollateralAssetId, individualBids.PremiumDiscount, individualBids.BidderAddress)
+						if individualBids.DebtToken.Amount.IsZero() {
+							// delete limit order bid
+							k.UpdateUserLimitBidDataForAddress(ctx, individualBids, false)
+							k.DeleteUserLimitBidData(ctx, auction.DebtAssetId, auction.CollateralAssetId, individualBids.PremiumDiscount, individualBids.BidderAddress)
+						}
 						// subtract auction.DebtToken.Amount from protocol data
 						protocolData, _ := k.GetLimitBidProtocolDataByAssetID(ctx, auction.DebtAssetId, auction.CollateralAssetId)
 						protocolData.BidValue = protocolData.BidValue.Sub(debtAmount)
